@@ -242,6 +242,24 @@ CHECKS = {
               "(I2 with Pade 13 for singular / ill-conditioned A, direct expmint/getEPQ1 calls only)."),
         technique="TLA+ algorithm machine + series-definition terms (TLC) evaluated at high precision against every variant; TLC trace validation of recorded branch events; conversion histories replayed",
     ),
+    "C20": dict(
+        cat="exploration",
+        text=("specs/Stats.tla: Conf(p, n, r) = P(Bin(n, 1-p) >= r) in exact integer arithmetic on three grids (p, c in tenths with n <= 8, "
+              "quarters n <= 14, halves n <= 24). TLC decides on every grid point: Conf monotone in r, n and p, total mass, and the mutual "
+              "consistency of the extreme-integer definitions (rank answer meets c and rank+1 does not; size answer meets c and size-1 does "
+              "not; size fed back into the rank question returns >= r), and exports the admissible answers (tie intervals where Conf = c "
+              "exactly). order_stats r / n / c / p is replayed on EVERY grid point (scalar and broadcast). Beyond the grids the same "
+              "definition is a term evaluated in exact rationals for random (p, c, n <= 300 quick / 3000 thorough, r <= 25). k-factors: "
+              "the defining probability statements as terms with quadrature / root constructors - one-sided: integral of Phi(sqrt(n) k "
+              "sqrt(v/nu) - sqrt(n) z_p) against the chi-square density = c; two-sided: the documented Wald-Wolfowitz equations - "
+              "residual <= 1e-8 on the law grid; monotone in p and c on all ordered pairs; limit z_p as n -> 1e6, 1e8, from above for c >= 1/2; "
+              "scalar = broadcast."),
+        ref="4/C20",
+        note=("Trusted: TLC, mpmath (erf, gamma, incomplete gamma, tanh-sinh quadrature, bracketed root finding), fractions. The k-factor "
+              "clauses are tested against their definitions, not proved. One genuine defect repaired (order_stats('n') when r samples "
+              "already suffice, fix: e1cdda6)."),
+        technique="TLA+ exact binomial model decided by TLC on grids + exported answer tables replayed; definition terms (exact rationals / quadrature) beyond the grids",
+    ),
     "C03": dict(
         cat="exploration",
         text=("specs/Srs.tla: the option lattice 6 stype x 4 ic x 3 time x 6 peak x eqsine (864 points), the integer index model "
